@@ -94,6 +94,7 @@ def selectStep : List String → Option String
   | ["sniffbig", _] => some "ok"
   -- C18 cast oracle: evaluated on the real code alone (exactness of the i64 / u64 / f64 views)
   | ["numcast", _] => some "ok"
+  | "selreuse" :: _ => some "ok"
   | _ => none
 
 end Jsonb.Driver
